@@ -80,29 +80,44 @@ def solve_text(args):
     idx, text, kind, thorough = args
     total = 0.0
     tried = []
-    r, dt, model = _run_z3_api(text, Z3_TIMEOUT_MS)
-    total += dt
-    tried.append(("z3-5.1", r, round(dt, 3)))
-    backend = "z3-5.1"
+    has_q = "(forall" in text or "(exists" in text
+    r, model, backend = "unknown", None, "z3-5.1"
+    if has_q:
+        # e-matching only first: proves most quantified goals at once; a `sat` answer without MBQI is not trusted
+        r1, dt1, _ = _run_z3_api(text, min(Z3_TIMEOUT_MS, 5000), mbqi=False)
+        total += dt1
+        tried.append(("z3-5.1-nombqi", r1, round(dt1, 3)))
+        if r1 == "unsat":
+            r, backend = "unsat", "z3-5.1-nombqi"
+    def ext(name, cmd, tl):
+        nonlocal total
+        if not os.path.exists(cmd[0]):
+            return "unknown"
+        rx, dtx = _run_external(cmd, text, tl + 5)
+        total += dtx
+        tried.append((name, rx, round(dtx, 3)))
+        return rx
+    CVC5 = ("cvc5-1.0", ["/usr/bin/cvc5", "--lang=smt2", f"--tlimit={EXT_TIMEOUT_S * 1000}"], EXT_TIMEOUT_S)
+    Z348 = ("z3-4.8", ["/usr/bin/z3", f"-T:{EXT_TIMEOUT_S}"], EXT_TIMEOUT_S)
+    if r == "unknown" and has_q:
+        # cvc5 decides many quantified goals on which z3's MBQI wanders; ask it before spending z3's long budget
+        rx = ext("cvc5-1.0", ["/usr/bin/cvc5", "--lang=smt2", "--tlimit=8000"], 8)
+        if rx in ("sat", "unsat"):
+            r, backend = rx, "cvc5-1.0"
     if r == "unknown":
-        r2, dt2, model2 = _run_z3_api(text, Z3_TIMEOUT_MS, mbqi=False)
-        total += dt2
-        tried.append(("z3-5.1-nombqi", r2, round(dt2, 3)))
-        # without MBQI a `sat` answer is not trustworthy for quantified problems; only take unsat
-        if r2 == "unsat":
-            r, backend = r2, "z3-5.1-nombqi"
+        r2, dt, model = _run_z3_api(text, Z3_TIMEOUT_MS * 2)
+        total += dt
+        tried.append(("z3-5.1", r2, round(dt, 3)))
+        if r2 in ("sat", "unsat"):
+            r, backend = r2, "z3-5.1"
     if r == "unknown" or thorough:
-        for name, cmd in (("cvc5-1.0", ["/usr/bin/cvc5", "--lang=smt2", f"--tlimit={EXT_TIMEOUT_S * 1000}"]),
-                          ("z3-4.8", ["/usr/bin/z3", f"-T:{EXT_TIMEOUT_S}"])):
-            if not os.path.exists(cmd[0]):
-                continue
-            rx, dtx = _run_external(cmd, text, EXT_TIMEOUT_S + 5)
-            total += dtx
-            tried.append((name, rx, round(dtx, 3)))
-            if r == "unknown" and rx in ("sat", "unsat"):
-                r, backend = rx, name
-                if not thorough:
-                    break
+        for name, cmd, tl in (CVC5, Z348):
+            if r == "unknown" or thorough:
+                rx = ext(name, cmd, tl)
+                if r == "unknown" and rx in ("sat", "unsat"):
+                    r, backend = rx, name
+                    if not thorough:
+                        break
     cross = None
     if thorough:
         answers = {a for (_, a, _) in tried if a in ("sat", "unsat")}
